@@ -4,6 +4,7 @@ from __future__ import annotations
 import ast
 
 from .. import cfg as C
+from ..amatch import AM
 from ..report import AnalysisError
 from ..srcmodel import Cls, norm
 from ..state import StateAnalysis, attr_reads, own_exprs, self_attr
@@ -145,11 +146,14 @@ def rule_a(ctx):
     calls = [c for c in ast.walk(sv.node) if isinstance(c, ast.Call) and norm(c.func) == "np.savez"]
     ok = len(calls) == 1 and {k.arg: norm(k.value) for k in calls[0].keywords} == {"array": "self.img", "metadata": "self.metadata()"}
     ctx.ob(R, sv.qname, "save writes array=self.img, metadata=self.metadata()", ok, str([norm(c) for c in calls])[:160], sv.node)
-    reads = sorted(s.slice.value for s in ast.walk(rd.node) if isinstance(s, ast.Subscript) and norm(s.value) == "npzdata" and isinstance(s.slice, ast.Constant))
-    ctx.ob(R, rd.qname, "reader reads the names 'array' and 'metadata'", reads == ["array", "metadata"], str(reads), rd.node)
+    am = AM(rd)
+    ok = (am.has(rd.node, f"npzdata = np.load({rd.params[0]}, allow_pickle=True)") is not None and am.has(rd.node, "array = npzdata['array']") is not None
+          and am.has(rd.node, "metadata = npzdata['metadata'].item()") is not None)
+    ctx.ob(R, rd.qname, "reader reads the names 'array' and 'metadata'", ok, str(am.show()), rd.node)
     im = m.func(IMR, "imread")
-    route = [norm(n.body[0]) for n in ast.walk(im.node) if isinstance(n, ast.If) and norm(n.test) == "suffix == '.npz'"]
-    ctx.ob(R, im.qname, "imread routes .npz to imread_from_npz", route == ["return imread_from_npz(path)"], str(route), im.node)
+    am2 = AM(im)
+    route = [n for n in ast.walk(im.node) if isinstance(n, ast.If) and am2.eq(n.test, "suffix == '.npz'")]
+    ctx.ob(R, im.qname, "imread routes .npz to imread_from_npz", len(route) == 1 and am2.eq_block(route[0].body, [f"return imread_from_npz({im.params[0]})"]), "", im.node)
 
 
 def rule_b(ctx):
@@ -224,22 +228,27 @@ def rule_b(ctx):
     ctx.instance(R + ".writes", n_write)
     ctx.floor(R + ".writes", 2)
     fb = m.func(IMR, "imread_from_bytes")
+    am = AM(fb)
     arms = []
     for s in fb.node.body:
         if isinstance(s, ast.If):
             cur = s
             while True:
-                ctor = [norm(c.func) for x in cur.body for c in ast.walk(x) if isinstance(c, ast.Call) and norm(c.func).startswith("darsia.")]
-                img_arg = [norm(k.value) for x in cur.body for c in ast.walk(x) if isinstance(c, ast.Call) and norm(c.func).startswith("darsia.") for k in c.keywords if k.arg == "img"]
-                arms.append((norm(cur.test), ctor[-1] if ctor else None, img_arg[-1] if img_arg else None))
+                arms.append((cur.test, cur.body))
                 if len(cur.orelse) == 1 and isinstance(cur.orelse[0], ast.If):
                     cur = cur.orelse[0]
                     continue
-                arms.append(("else", "raise" if any(isinstance(x, ast.Raise) for x in cur.orelse) else None, None))
+                arms.append((None, cur.orelse))
                 break
     want = [("len(array.shape) == 3 and array.shape[-1] == 3", "darsia.OpticalImage", "array"), ("len(array.shape) == 2", "darsia.ScalarImage", "array"),
-            ("len(array.shape) == 3 and array.shape[-1] == 1", "darsia.ScalarImage", "array[..., 0]"), ("else", "raise", None)]
-    ctx.ob(R, fb.qname, "3 channels -> OpticalImage; rank 2 -> ScalarImage; single channel -> ScalarImage(squeezed); else raise", arms == want, str(arms), fb.node)
+            ("len(array.shape) == 3 and array.shape[-1] == 1", "darsia.ScalarImage", "array[..., 0]")]
+    ok = len(arms) == 4 and arms[3][0] is None and any(isinstance(x, ast.Raise) for x in arms[3][1])
+    if ok:
+        for (test, body), (wt, wc, wi) in zip(arms[:3], want):
+            ok = ok and am.eq(test, wt)
+            rets = [r for x in body for r in ast.walk(x) if isinstance(r, ast.Return)]
+            ok = ok and len(rets) == 1 and isinstance(rets[0].value, ast.Call) and norm(rets[0].value.func) == wc and any(k.arg == "img" and am.eq(k.value, wi) for k in rets[0].value.keywords)
+    ctx.ob(R, fb.qname, "3 channels -> OpticalImage; rank 2 -> ScalarImage; single channel -> ScalarImage(squeezed); else raise", ok, str(am.show()), fb.node)
 
 
 def savable(m, notes=None):
